@@ -16,17 +16,17 @@ import (
 
 // SI is one slab reached by the walker.
 type SI struct {
-	ID       atree.SlabID
-	Slab     atree.Slab
-	Enc      []byte
-	Reg      *Reg
-	Kind     int
-	ViaIndex bool // referenced from an index slab (i.e. a non-root slab of a tree)
-	HasExtra bool
-	Parent   *SI
-	Kids     []*SI // children in index order (index slabs) or reference order (data slabs)
-	NestedGroup bool // external collision group of a map that is INLINED in the parent slab (not of the slab's own map)
-	Count    uint64
+	ID          atree.SlabID
+	Slab        atree.Slab
+	Enc         []byte
+	Reg         *Reg
+	Kind        int
+	ViaIndex    bool // referenced from an index slab (i.e. a non-root slab of a tree)
+	HasExtra    bool
+	Parent      *SI
+	Kids        []*SI // children in index order (index slabs) or reference order (data slabs)
+	NestedGroup bool  // external collision group of a map that is INLINED in the parent slab (not of the slab's own map)
+	Count       uint64
 }
 
 // Inl describes one nested container found inside a data slab.
@@ -40,11 +40,11 @@ type Inl struct {
 }
 
 type Walk struct {
-	st      atree.SlabStorage
-	Slabs   map[atree.SlabID]*SI
-	Order   []*SI
-	Nested  map[atree.ValueID]*Inl
-	Compact bool // relaxed comparisons for compact maps (R7)
+	st                 atree.SlabStorage
+	Slabs              map[atree.SlabID]*SI
+	Order              []*SI
+	Nested             map[atree.ValueID]*Inl
+	Compact            bool // relaxed comparisons for compact maps (R7)
 	maxArr, maxMapElem uint32
 }
 
